@@ -412,3 +412,16 @@ also14("C13", "the session counter is advanced by the close only.")
 also14("C15", "no return of a stream opener is reachable under err != nil: an open that failed is fatal whatever its error class.")
 also14("C18", "the ownership test and the serial close loop agree with the assigned chunk (inclusive bounds on both sides).")
 also14("C19", "the operation record never closes its signal channel (a late completion cannot panic); what runs in the ping completion divides by nothing that may be zero.")
+
+
+def also15(pid, text):
+    t, x, r = CLAIMS[pid]
+    CLAIMS[pid] = (t, x + " ALSO DECIDED (fourteenth seeded round): " + text, r)
+
+
+also15("C03", "the configuration is not written through a pointer it holds (skipUntil) or into an element of its slices; the library writes into no byte slice it did not make itself (event keys and values are handed on without a copy).")
+also15("C07", "Close stops the mitigation itself, synchronously.")
+also15("C09", "every assignment that differs from the one in effect is published, and the record of the one in effect changes only together with the publish.")
+also15("C11", "once the new membership is recorded as the one in effect no path returns without announcing it.")
+also15("C16", "an observer's counters are written only by their own methods; the lag is computed under the nil test of the high-seqNo query's own error.")
+also15("C20", "the context an operation waits under is structurally the one WithTimeout/WithDeadline returned or a child of it — not a context another function hands back for it.")
